@@ -27,8 +27,8 @@ CHECKS = {
    note="Trusted base: reflzma (applies liblzma's .lzma termination rules), liblzma 5.4.1, refenc."),
  "C08": dict(engine="wsim", cat="exploration", ref="DESIGN.md §4 C08",
    technique="deterministic simulation of LZMA2 writer call histories over {Write, Flush, Close, post-Close}: the sink image at every Flush return (= the image a crash right after the acknowledged Flush leaves) is decoded by the reference decoder and Reader2; idle Flush must emit nothing",
-   text="Seeded exploration of histories with Flush biased around the chunk limits, after incompressible segments, twice in a row and on a fresh writer. Invariants at each Flush return (whole chunks, no end chunk, decodes to exactly the bytes written before) and after Close (complete image decodes under Reader2, reflzma, liblzma; later calls fail and emit nothing).",
-   note="Trusted base: reflzma, liblzma. Nothing demanded between flushes. Sink never fails here (C09)."),
+   text="Seeded exploration of histories with Flush biased around the chunk limits, after incompressible segments, twice in a row and on a fresh writer. Invariants at each Flush return (whole chunks, no end chunk, decodes to exactly the bytes written before) and after Close (complete image decodes under Reader2, reflzma, liblzma; later calls fail and emit nothing). One or two margin probes per batch: the most expensive operation a stream can hold (a long far match the adaptive model does not expect) is placed, by bisection over the chunk headers of recorded sink images, at the compressed-size limit of a chunk, and every history of a 16-byte window around that point must satisfy the whole contract.",
+   note="Trusted base: reflzma, liblzma. Nothing demanded between flushes. Sink never fails here (C09). Rare expensive payload shapes (almost incompressible data, noise with far copies, one match 16-40 MiB back in a 32/64 MiB dictionary) are part of the quick batch."),
  "C12": dict(engine="rsim", cat="exploration", ref="DESIGN.md §4 C12",
    technique="deterministic simulation of an append-only file of several writer sessions plus stream padding: exhaustive padding enumeration 0..16 for chains of <=3 streams x SingleStream, seeded longer chains, trailing garbage, under fragmentation and Read schedules; executable model of the concatenation law as oracle",
    text="The short-chain padding space is enumerated completely (10470 cases); longer chains, mixed writers/checks, empty streams and schedules are seeded. Model: only aligned padding after streams is legal; SingleStream yields exactly the first content and errors iff a byte follows.",
@@ -52,7 +52,7 @@ CHECKS = {
    note="Process-crash semantics (stored prefix intact). Streams > 16 KiB or very many blocks: strided cuts with all structure boundaries kept (counters in evidence say how many streams were enumerated completely)."),
  "C09": dict(engine="iofault", cat="fault_enumeration", ref="DESIGN.md §4 C09",
    technique="deterministic simulation with a fault-injecting sink and source: every sink-call index k x {fail once, fail forever} x {no bytes, partial write} over xz/LZMA/LZMA2 writer histories always finished with Close, Close; every source offset 0..len x {bare error, error together with data} over the three readers (incl. SingleStream)",
-   text="Per scenario the fault positions are enumerated completely (K re-counted per run); scenarios are sampled. Writer oracle: no panic in any call, some call returns an error whenever the sink returned one, and a history in which every call returned nil leaves a complete valid stream. Reader oracle: the injected error (or one wrapping it) surfaces from open or Read, never io.EOF, no panic, delivered bytes a prefix of the content.",
+   text="Per scenario the fault positions are enumerated completely (K re-counted per run); scenarios are sampled. Sink faults per call index: fail once / forever x nothing / a prefix / the full byte count persisted. Source faults per offset: sticky bare, sticky with the last good bytes, and transient (returned bare once, the source carries on). Writer oracle: no panic in any call, some call returns an error whenever the sink returned one, and a history in which every call returned nil leaves a complete valid stream. Reader oracle: the injected error (or one wrapping it) surfaces from open or Read, never io.EOF, no panic, delivered bytes a prefix of the content.",
    note="Source errors are sticky by design (io.ReadFull / LimitReader / byte adapters legitimately drop an error that arrives with enough data). Sinks never return short counts without an error. ByteWriter sinks with > 400 calls are strided."),
  "C11": dict(engine="dfault+rsim", cat="exploration", ref="DESIGN.md §4 C11",
    technique="deterministic simulation of hostile stored data for the three readers: seeded structure-aware fault injection (up to 3 stacked bit/byte/range faults on valid streams with CRC32s re-sealed half of the time, header-valid garbage incl. hostile uvarints/record counts/chunk headers, PRNG bytes) under fragmentation and Read schedules, with a per-Read step budget counted at the source seam and a wall-clock watchdog",
@@ -70,7 +70,7 @@ CHECKS = {
 
  "C14": dict(engine="conc", cat="exploration", ref="DESIGN.md §4 C14",
    technique="deterministic simulation of N caller tasks (each owning its own xz/LZMA/LZMA2 writer or reader) under a seeded lock-step scheduler that decides at every API call and every sink/source call which task proceeds - replayable, shrinkable schedules - with each task's complete observable result compared to its solo run; plus the same task sets run unsynchronised in a binary built with the Go race detector",
-   text="(a) Lock-step simulation is the deciding step for interference through state that survives an API or I/O boundary: exactly one task runs at a time, the seed picks the next; results (sink image / delivered bytes, every call's n and err) must equal the solo results, solo runs must repeat byte-identically, identical tasks must produce identical bytes. (b) The race-detector half observes runtime-chosen schedules (monitoring, labelled as such in evidence) because lock-step parking would blind the detector.",
+   text="(a) Lock-step simulation is the deciding step for interference through state that survives an API or I/O boundary: exactly one task runs at a time, the seed picks the next; results (sink image / delivered bytes, every call's n and err) must equal the solo results, solo runs must repeat byte-identically, identical tasks must produce identical bytes. Every lock-step case runs in a fresh process of its own; cases contain identical tasks, sibling tasks (one configuration value nudged), tasks that build their configuration through Verify(), tasks with configurations the library must refuse, and readers that read on after EOF; a third of the cases also compare every task with a run alone in a fresh process. (b) The race-detector half observes runtime-chosen schedules (monitoring, labelled as such in evidence) because lock-step parking would blind the detector: task sets released together by a spinning barrier in 8 long-lived -race processes, plus 64 (thorough: 800) short-lived -race processes that each run one case of identical short tasks as the very first use of the library (races on state that is written once per process).",
    note="No yield points inside codec inner loops (no hook in /repo). A race report is attributed to the last task set started (one case at a time in the race child)."),
 }
 
